@@ -1,9 +1,9 @@
 from contracts.h5graph import CONTRACTS as _H
-from contracts.tree import AddSaveConcatenated, OpenResetsRegistries, ParentSet
+from contracts.tree import ALL_OF as _ALLOF, AddSaveConcatenated, OpenResetsRegistries, ParentSet
 from contracts.writer import FetchHandleStub, WriteAttributes
 from contracts.workspace_io import CloseContract
 from contracts.histories import ApiHistories
-CONTRACTS = list(_H) + [AddSaveConcatenated, OpenResetsRegistries, ParentSet, FetchHandleStub, WriteAttributes, CloseContract, ApiHistories]
+CONTRACTS = list(_H) + [AddSaveConcatenated, OpenResetsRegistries, ParentSet, FetchHandleStub, WriteAttributes, CloseContract, ApiHistories] + list(_ALLOF)
 
 MANIFEST = {
     "category": "proof",
